@@ -38,6 +38,26 @@ theorem fileName_first_accepted {U : Char → Bool} {lower : Str → Str} {name 
       ∀ j, j < k → accept j (lower (candidate U name pre suf j)) = false :=
   fileName_some h
 
+/-- …and conversely: this determines the result -/
+theorem fileName_eq_some_iff {U : Char → Bool} {lower : Str → Str} {name pre suf p : Str}
+    {accept : Nat → Str → Bool} :
+    userNameToFileName U lower name pre suf accept = some p ↔
+      ∃ k, k ≤ 99 ∧ p = candidate U name pre suf k ∧ accept k (lower p) = true ∧
+        ∀ j, j < k → accept j (lower (candidate U name pre suf j)) = false := by
+  refine ⟨fileName_some, fun ⟨k, hk, hp, ha, hrej⟩ => ?_⟩
+  cases hr : userNameToFileName U lower name pre suf accept with
+  | none =>
+    have := fileName_none.1 hr k hk
+    rw [← hp, ha] at this; cases this
+  | some q =>
+    obtain ⟨k', hk', hq, ha', hrej'⟩ := fileName_some hr
+    have : k' = k := by
+      rcases Nat.lt_trichotomy k' k with h | h | h
+      · have := hrej k' h; rw [← hq, ha'] at this; cases this
+      · exact h
+      · have := hrej' k h; rw [← hp, ha] at this; cases this
+    subst this; rw [hq, hp]
+
 /-- the only panic is the documented one: `none` exactly when all 100 candidates were rejected
     (in particular the two `String::truncate` calls never hit the inside of a character). -/
 theorem fileName_none_iff_100_rejections {U : Char → Bool} {lower : Str → Str} {name pre suf : Str}
@@ -125,6 +145,18 @@ theorem fileName_affixes_layer_counterexample :
       ¬ HasAffixes layerPrefix [] p := by
   refine ⟨['g', 'l', 'y', 'p', 'h', 's', '_', '_'], ?_, ?_, ?_⟩ <;> decide +kernel
 
+/-- the part before the first period, ASCII-lower-cased, is none of the 22 device names — for every
+    `U` that is true on ASCII `A`–`Z`, both affix pairs, every name (valid or not), every clash count -/
+theorem fileName_not_reserved {U : Char → Bool} {lower : Str → Str} {name pre suf p : Str}
+    {accept : Nat → Str → Bool} (hw : Wrapper pre suf)
+    (hU : ∀ c : Char, 'A'.toNat ≤ c.toNat ∧ c.toNat ≤ 'Z'.toNat → U c = true)
+    (h : userNameToFileName U lower name pre suf accept = some p) : NotReserved p := by
+  obtain ⟨k, _, hp, _, _⟩ := fileName_some h
+  rw [hp]
+  rcases hw with ⟨h1, h2⟩ | ⟨h1, h2⟩ <;> subst h1 <;> subst h2
+  · exact glif_not_reserved (fun c hc => hU c (by simpa [isAU] using hc)) name k
+  · exact layer_not_reserved U name k
+
 /-! ## termination of the char-boundary back-off -/
 
 /-- `while !is_char_boundary(b) { b -= 1 }` started inside the string stops after at most 3 steps
@@ -172,5 +204,35 @@ theorem fileName_len_255_counterexample :
     ∃ p, userNameToFileName (fun _ => false) id (List.replicate 250 'a') [] glifSuffix
         (fun k _ => k == 1) = some p ∧ ValidName (List.replicate 250 'a') ∧ ¬ Len255 p := by
   refine ⟨List.replicate 250 'a' ++ ['0', '1'] ++ glifSuffix, ?_, ?_, ?_⟩ <;> decide +kernel
+
+/-! ## non-vacuity: the hypotheses are satisfiable and the conclusions not trivially true -/
+
+example : Wrapper [] glifSuffix ∧ Wrapper layerPrefix [] := ⟨Or.inl ⟨rfl, rfl⟩, Or.inr ⟨rfl, rfl⟩⟩
+example : ValidName ['A', '.', 'c', 'o', 'n'] := by decide
+example : ¬ ValidName [] ∧ ¬ ValidName ['a', Char.ofNat 0x85] := by decide
+/-- `A.con` → `A_.con.glif` -/
+example : glyphFileName (fun c => c == 'A') id ['A', '.', 'c', 'o', 'n'] [] =
+    some ['A', '_', '.', 'c', 'o', 'n', '.', 'g', 'l', 'i', 'f'] := by decide
+/-- `con` → `_con.glif`, and with that taken (ignoring case) → `_con01.glif` -/
+example : glyphFileName (fun _ => false) id ['c', 'o', 'n'] [['_', 'c', 'o', 'n', '.', 'g', 'l', 'i', 'f']] =
+    some ['_', 'c', 'o', 'n', '0', '1', '.', 'g', 'l', 'i', 'f'] := by decide
+/-- layer `.x ` → `glyphs..x_` -/
+example : layerDirName (fun _ => false) id ['.', 'x', ' '] [] =
+    some ['g', 'l', 'y', 'p', 'h', 's', '.', '.', 'x', '_'] := by decide
+/-- the guard of `fileName_affixes_partial` holds for ordinary layer names and fails for `" "` -/
+example : ∃ c cs, ['a', ' '] = c :: cs ∧ c ≠ '.' ∧ c ≠ ' ' := ⟨'a', [' '], rfl, by decide, by decide⟩
+/-- the documented panic is reachable: a closure that rejects everything -/
+example : userNameToFileName (fun _ => false) id ['a'] [] glifSuffix (fun _ _ => false) = none := by
+  decide +kernel
+/-- acceptance at the 99th counter, the last one -/
+example : userNameToFileName (fun _ => false) id ['a'] [] glifSuffix (fun k _ => k == 99) =
+    some ['a', '9', '9', '.', 'g', 'l', 'i', 'f'] := by decide +kernel
+/-- the predicates are not trivially true -/
+example : ¬ SingleComponent ['a', '/', 'b'] ∧ ¬ NoLeadingPeriod ['.', 'a'] ∧
+    ¬ NoTrailingPeriodOrSpace ['a', ' '] ∧ ¬ NotReserved ['C', 'o', 'N', '.', 'x'] ∧
+    ¬ HasAffixes [] glifSuffix ['a'] := by decide
+/-- the back-off really backs off: index 2 inside `é` (bytes 1..2) goes to 1 -/
+example : backoff ['a', 'é', 'b'] 2 = 1 ∧ truncateAt ['a', 'é', 'b'] 2 = none ∧
+    truncateAt ['a', 'é', 'b'] 1 = some ['a'] := by decide
 
 end C07
